@@ -90,6 +90,45 @@ def facts(ctx):
     return m._poolfacts
 
 
+class ReaperAnchors:
+    """Local names of Pool._join_exited_workers discovered by role (so that a rename of a
+    local does not matter): the loop's worker variable, the dict of reaped workers, the dict of
+    their exit codes, the exit-code variable, the list of live pids, the clock variable."""
+
+    def __init__(self, ctx):
+        m = ctx.model
+        self.fi = fi = m.func('pool:Pool._join_exited_workers')
+        self.worker = self.cleaned = self.exitcodes = self.exitcode = self.all_pids = self.now = None
+        for n in walk_own(fi.node):
+            if not isinstance(n, ast.Assign) or len(n.targets) != 1:
+                continue
+            t, v = n.targets[0], n.value
+            if isinstance(t, ast.Name) and isinstance(v, ast.Subscript) and fi.canon(v.value) == 'self._pool':
+                self.worker = t.id
+        q.need(self.worker, '_join_exited_workers: worker variable (self._pool[i]) not found')
+        W = self.worker
+        for n in walk_own(fi.node):
+            if not isinstance(n, ast.Assign) or len(n.targets) != 1:
+                continue
+            t, v = n.targets[0], n.value
+            if isinstance(t, ast.Name) and ast.unparse(v) == W + '.exitcode':
+                self.exitcode = t.id
+            if isinstance(t, ast.Name) and isinstance(v, ast.ListComp) and \
+                    ast.unparse(v.generators[0].iter) == 'self._pool' and ast.unparse(v.elt).endswith('.pid'):
+                self.all_pids = t.id
+            if isinstance(t, ast.Name) and any(isinstance(x, ast.Call) and fi.callee(x) in CLOCKS for x in ast.walk(v)):
+                self.now = t.id
+        for n in walk_own(fi.node):
+            if isinstance(n, ast.Assign) and len(n.targets) == 1 and isinstance(n.targets[0], ast.Subscript) and \
+                    isinstance(n.targets[0].value, ast.Name) and ast.unparse(n.targets[0].slice) == W + '.pid':
+                if ast.unparse(n.value) == W:
+                    self.cleaned = n.targets[0].value.id
+                elif self.exitcode and ast.unparse(n.value) == self.exitcode:
+                    self.exitcodes = n.targets[0].value.id
+        for nm in ('cleaned', 'exitcodes', 'exitcode', 'all_pids', 'now'):
+            q.need(getattr(self, nm), '_join_exited_workers: local in the role `%s` not found' % nm)
+
+
 class WorkloopAnchors:
     """The constructs of Worker.workloop the protocol rules talk about."""
 
